@@ -71,6 +71,10 @@ type c05Case struct {
 	Targets []string `json:"targets,omitempty"`
 	// Aud is the variant of how the presented value is addressed (s2s presentations: proof.domain / aud claim shape).
 	Aud string `json:"aud,omitempty"`
+	// Hostile is an interference step of a sequential history: before request Before, a handler that takes a
+	// client-supplied store key is called with keys that name the entries touched by the earlier requests, in the
+	// given traversal spelling.
+	Hostile *c05HostileStep `json:"hostile,omitempty"`
 	// Faults is the fault plan of the session store's back-end (go-cache itself cannot fail, Redis/memcached can).
 	Faults []c05Fault `json:"faults,omitempty"`
 }
@@ -83,6 +87,12 @@ type c05Fault struct {
 	Key   string `json:"key,omitempty"`
 	Nth   int    `json:"nth"`
 	Count int    `json:"count"`
+}
+
+type c05HostileStep struct {
+	Before   int    `json:"before"`
+	Handler  string `json:"handler"`
+	Spelling string `json:"spelling"`
 }
 
 func (f c05Fault) String() string { return fmt.Sprintf("%s#%dx%d@%q", f.Op, f.Nth, f.Count, f.Key) }
@@ -116,6 +126,33 @@ type c05Store struct {
 	cur     int
 	fired   []string
 	firedOp map[string]bool
+	// touched: full keys used by back-end calls of requests in a sequential history (while armed), in first-use order
+	touched []string
+	client  *gocacheclient.Cache
+}
+
+func (c *c05Store) touch(key any) {
+	k := fmt.Sprint(key)
+	c.mu.Lock()
+	defer c.mu.Unlock()
+	if !c.armed {
+		return
+	}
+	for _, t := range c.touched {
+		if t == k {
+			return
+		}
+	}
+	c.touched = append(c.touched, k)
+}
+
+// keys returns the keys of the live entries of the real store.
+func (c *c05Store) keys() map[string]bool {
+	out := map[string]bool{}
+	for k := range c.client.Items() {
+		out[k] = true
+	}
+	return out
 }
 
 func (c *c05Store) arm(on bool, request int) {
@@ -215,6 +252,8 @@ func (c *c05Store) point(op string, key any) int {
 		c.mu.Lock()
 		c.ops = append(c.ops, c05Op{Actor: a, Op: op, Key: k})
 		c.mu.Unlock()
+	} else {
+		c.touch(key)
 	}
 	return a
 }
@@ -294,7 +333,9 @@ func (r *c05Reporter) Fatalf(format string, args ...any) {
 func (r *c05Reporter) Helper() {}
 
 type c05Fixture struct {
-	targets  []string
+	// validAtPassed: the handler asked the verifier to judge the presentation at another moment than now
+	validAtPassed bool
+	targets       []string
 	aud      string
 	w        Wrapper
 	st       *c05Store
@@ -332,7 +373,8 @@ func (fx *c05Fixture) now() time.Time { return time.Now().Add(fx.st.elapsed()) }
 func c05NewFixture(s *sched.S, c c05Case) *c05Fixture {
 	fx := &c05Fixture{rep: &c05Reporter{}, targets: c.Targets, aud: c.Aud}
 	fx.ctrl = gomock.NewController(fx.rep)
-	fx.st = &c05Store{inner: go_cache.NewGoCache(gocacheclient.New(15*time.Minute, 0 /* no janitor goroutine */)), s: s}
+	client := gocacheclient.New(15*time.Minute, 0 /* no janitor goroutine */)
+	fx.st = &c05Store{inner: go_cache.NewGoCache(client), client: client, s: s}
 	db := storage.NewVerifSessionDatabase(fx.st)
 
 	fx.auth = auth.NewMockAuthenticationServices(fx.ctrl)
@@ -620,6 +662,17 @@ func c05FaultClasses(x *h.Ctx, c c05Case, st *c05Store) (sigSuffix string, text 
 	return sigSuffix, fmt.Sprintf("fault plan %v; back-end calls answered with an error: %s\n", c.Faults, strings.Join(st.fired, "; "))
 }
 
+// c05Plain counts the runs in which the fixture is expected to see the value honoured (no fault, no hostile step, home
+// tenant, current time claims, sequential). A single refusal there is only a class; c05Guard fails the unit as a harness
+// problem when fewer than 90% of them honoured the value (then the fixture no longer exercises the property).
+var c05Plain struct{ runs, honoured int }
+
+func c05Guard(t *testing.T) {
+	if c05Plain.runs >= 10 && c05Plain.honoured*10 < c05Plain.runs*9 {
+		t.Fatalf("HARNESS: the value was honoured in only %d of %d plain runs: the fixture does not exercise the property any more", c05Plain.honoured, c05Plain.runs)
+	}
+}
+
 // c05Last hands the trace of the most recent run to the enumerator (h.Each calls run synchronously).
 var c05Last struct {
 	tr  sched.Trace
@@ -651,6 +704,9 @@ func c05Run(x *h.Ctx, c c05Case) {
 	if len(c.Hist) > 0 {
 		c05RunHistory(x, c, k)
 		return
+	}
+	if c.Hostile != nil {
+		x.Fatalf("hostile steps exist in sequential histories only")
 	}
 	n := len(c.Roles)
 	if n < 1 || n > 4 {
@@ -800,13 +856,19 @@ func c05Run(x *h.Ctx, c c05Case) {
 	}
 	for d := 0; d < n; d++ {
 		if c.Roles[d] != "ok" && out[d].OK {
-			// not this property's business (C02), but the fixture would be wrong
-			x.Fatalf("defective request %d (%s) succeeded: fixture problem\n%s", d, c.Roles[d], describe())
+			// not this property's business (C02)
+			x.Class("defective-request-honoured")
 		}
 	}
-	// sanity of the fixture: a purely sequential run of correct requests must honour the first one
-	if sw == 0 && !defective && succ == 0 && len(fx.st.fired) == 0 && c.Aud == "" && len(c.Targets) == 0 {
-		x.Fatalf("no request succeeded in a sequential run: fixture problem\n%s", describe())
+	// sanity of the fixture, judged per unit (c05Guard): plain sequential runs of correct requests normally honour one
+	if sw == 0 && !defective && len(fx.st.fired) == 0 && c.Aud == "" && len(c.Targets) == 0 {
+		c05Plain.runs++
+		if succ == 0 {
+			x.Class("plain-sequential-run-without-success")
+			x.Logf("no request succeeded in a plain sequential run:\n%s", describe())
+		} else {
+			c05Plain.honoured++
+		}
 	}
 }
 
@@ -857,14 +919,21 @@ func c05RunHistory(x *h.Ctx, c c05Case, k *c05Kind) {
 	if !known {
 		x.Fatalf("kind %s has no claims variant %q", c.Kind, c.Claims)
 	}
+	if c.Hostile != nil && (c.Hostile.Before < 1 || c.Hostile.Before >= n) {
+		x.Fatalf("hostile step must lie between two requests")
+	}
 	c05CheckFaults(x, c.Faults)
 	s := sched.New(1, sched.Options{}) // never run: requests are issued from this goroutine, which is no actor
 	fx := c05NewFixture(s, c)
 	_, request := k.setup(x, fx, c.Claims)
 	fx.st.faults = c.Faults
 	out := make([]c05Outcome, n)
+	hostileInfo := ""
 	for i, off := range c.Hist {
 		fx.st.advanceTo(time.Duration(off) * time.Second)
+		if c.Hostile != nil && c.Hostile.Before == i {
+			hostileInfo = c05Interfere(x, fx, *c.Hostile)
+		}
 		fx.st.arm(true, i)
 		out[i] = request("ok", i)
 		fx.st.arm(false, i)
@@ -887,6 +956,9 @@ func c05RunHistory(x *h.Ctx, c c05Case, k *c05Kind) {
 	x.Classf("history-length=%d", n)
 	c05TenantClasses(x, c, k, n)
 	faultSig, faultText := c05FaultClasses(x, c, fx.st)
+	if fx.validAtPassed {
+		x.Class("handler-passed-validAt-to-the-verifier")
+	}
 	firstOK := -1
 	succ := 0
 	for i, o := range out {
@@ -924,10 +996,18 @@ func c05RunHistory(x *h.Ctx, c c05Case, k *c05Kind) {
 			fmt.Fprintf(&b, "  t+%ds request %d at tenant %s: ok=%v %s\n", c.Hist[i], i, c05Target(c, i), o.OK, o.Detail)
 		}
 		b.WriteString(faultText)
+		b.WriteString(hostileInfo)
 		return b.String()
 	}
-	if c.Claims == "" && !out[0].OK && len(fx.st.fired) == 0 && c05Target(c, 0) == "A" && (c.Aud == "" || c.Aud == "jwt:A" || c.Aud == "jwt:A,B" || c.Aud == "jwt:B,A" || c.Aud == "jwt:A-string") {
-		x.Fatalf("first presentation of a value with current time claims was refused: fixture problem\n%s", describe())
+	if c.Claims == "" && len(fx.st.fired) == 0 && c05Target(c, 0) == "A" && (c.Aud == "" || c.Aud == "jwt:A" || c.Aud == "jwt:A,B" || c.Aud == "jwt:B,A" || c.Aud == "jwt:A-string") {
+		// sanity of the fixture, judged per unit (c05Guard): a first presentation with current time claims is normally honoured
+		c05Plain.runs++
+		if !out[0].OK {
+			x.Class("plain-first-presentation-refused")
+			x.Logf("first presentation of a value with current time claims was refused:\n%s", describe())
+		} else {
+			c05Plain.honoured++
+		}
 	}
 	for i := 0; i < n; i++ {
 		for j := i + 1; j < n; j++ {
@@ -946,6 +1026,9 @@ func c05RunHistory(x *h.Ctx, c c05Case, k *c05Kind) {
 			if c05Target(c, i) != c05Target(c, j) {
 				when += ":cross-tenant"
 			}
+			if c.Hostile != nil && i < c.Hostile.Before && c.Hostile.Before <= j {
+				when += ":after-hostile-" + c.Hostile.Handler
+			}
 			c05Violate(x, "replay-honoured:"+c.Kind+":"+when+faultSig, "request %d and request %d (%v later) presenting the same %s were both honoured\n%s", i, j, gap, c.Kind, describe())
 			return
 		}
@@ -955,8 +1038,8 @@ func c05RunHistory(x *h.Ctx, c c05Case, k *c05Kind) {
 // c05Histories is the fixed list of sequential histories: pairs and triples over a menu of gaps that straddle the
 // TTLs in play (s2s nonce 10s, presentation window 5s +- 5s skew, access token / jti 15m), plus a burst of five.
 func c05Histories() [][]int {
-	menu := []int{0, 2, 4, 9, 11, 14, 16, 60, 600, 899, 901, 3600}
-	short := []int{0, 4, 11, 14, 899, 901}
+	menu := []int{0, 2, 4, 9, 11, 14, 16, 20, 60, 600, 899, 901, 3600}
+	short := []int{0, 4, 11, 16, 899, 901}
 	var out [][]int
 	for _, g := range menu {
 		out = append(out, []int{0, g})
@@ -1016,6 +1099,16 @@ func c05EnumerateHistories(yield func(c05Case) bool) {
 				}
 			}
 		}
+		// interference: between use and replay a hostile request names the entries of the value in another handler's key
+		for _, handler := range c05HostileHandlers {
+			for _, sp := range c05HostileSpellings {
+				for _, hist := range [][]int{{0, 0}, {0, 4}} {
+					if !yield(c05Case{Kind: name, Hist: hist, Hostile: &c05HostileStep{Before: 1, Handler: handler, Spelling: sp}}) {
+						return
+					}
+				}
+			}
+		}
 		// back-end faults: immediate and slightly delayed replays, two to four requests
 		for _, plan := range c05FaultPlans() {
 			for _, hist := range [][]int{{0, 0}, {0, 0, 0}, {0, 0, 0, 0}, {0, 2, 4}} {
@@ -1031,6 +1124,7 @@ func c05EnumerateHistories(yield func(c05Case) bool) {
 func TestVerif_C05_History(t *testing.T) {
 	c05Suppress = true
 	h.Each(t, c05ID, c05EnumerateHistories, c05Run)
+	c05Guard(t)
 }
 func TestVerifReplay_C05_History(t *testing.T) { h.Replay(t, c05ID, "TestVerif_C05_History", c05Run) }
 
@@ -1145,6 +1239,7 @@ func c05EnvInt(name string, def int) int {
 func TestVerif_C05_Enum2(t *testing.T) {
 	c05Suppress = true
 	h.Each(t, c05ID, c05Enumerate(t, 2, 0), c05Run)
+	c05Guard(t)
 }
 func TestVerifReplay_C05_Enum2(t *testing.T) { h.Replay(t, c05ID, "TestVerif_C05_Enum2", c05Run) }
 
@@ -1152,6 +1247,7 @@ func TestVerifReplay_C05_Enum2(t *testing.T) { h.Replay(t, c05ID, "TestVerif_C05
 func TestVerif_C05_Enum3(t *testing.T) {
 	c05Suppress = true
 	h.Each(t, c05ID, c05Enumerate(t, 3, c05EnvInt("VERIF_N", 300)), c05Run)
+	c05Guard(t)
 }
 func TestVerifReplay_C05_Enum3(t *testing.T) { h.Replay(t, c05ID, "TestVerif_C05_Enum3", c05Run) }
 
@@ -1169,5 +1265,8 @@ func c05Gen(t *rapid.T) c05Case {
 	return c05Case{Kind: name, Roles: roles, Schedule: sch}
 }
 
-func TestVerif_C05_Sample3(t *testing.T)       { h.Check(t, c05ID, c05Gen, c05Run) }
+func TestVerif_C05_Sample3(t *testing.T) {
+	h.Check(t, c05ID, c05Gen, c05Run)
+	c05Guard(t)
+}
 func TestVerifReplay_C05_Sample3(t *testing.T) { h.Replay(t, c05ID, "TestVerif_C05_Sample3", c05Run) }
